@@ -835,15 +835,18 @@ class C09(Check):
                   '_combine_optional_floats(None, None) returns 2.0 and whose arithmetic parse actions fold whole chains — both facts are read off the '
                   'source by the translator), translate_sound_fixed / translate_sound_of_fix, translate_unsound_pinned and translate_unsound_arith_pinned '
                   '(the pinned code is unsound on |x|+|x| <= 2 and on (2*3*4)x <= 1), translate_rejects_nonconvex / translate_convex_only_if, '
-                  'translate_error_kinds, about the executable model of the parse actions and the serializer; tied to the parser by rendering each tree in 3 '
-                  'whitelisted spellings and comparing the ordered term list / error kind; judge: sign-cell enumeration + certified exact LP decides '
+                  'translate_error_kinds, about the executable model of the parse actions and the serializer; fromChars_sound / fromChars_error_kinds_now '
+                  '(Props/C09Parse) about the model of the whole function from the characters on (Model/Parse.lean: lexical level + pyparsing\'s ordered choice, '
+                  'then the parse actions): for EVERY string, a returned term list means what the tree built from all its tokens denotes, and a rejection is one of '
+                  'the documented errors; tied to the parser by rendering each tree in 3 whitelisted spellings and comparing the ordered term list / error kind both '
+                  'for the tree and for each string read by the model parser (malformed strings included); judge: sign-cell enumeration + certified exact LP decides '
                   'equivalence of the parsed terms and the written relation over all real points, independently of the model.')
-    lean_modules = ["Pacti.Props.C09", "Pacti.Props.C09Full"]
+    lean_modules = ["Pacti.Props.C09", "Pacti.Props.C09Full", "Pacti.Props.C09Parse"]
     gen_sources = ["src/pacti/terms/polyhedra/syntax/data.py", "src/pacti/terms/polyhedra/syntax/grammar.py"]
     theorems = ["Pacti.C09.translate_sound", "Pacti.C09.translate_sound_fixed", "Pacti.C09.translate_sound_of_fix",
                 "Pacti.C09.translate_unsound_pinned", "Pacti.C09.translate_unsound_arith_pinned", "Pacti.C09.translate_unsound_arith_only",
                 "Pacti.C09.translate_unsound_of_pinned", "Pacti.C09.translate_rejects_nonconvex", "Pacti.C09.translate_convex_only_if",
-                "Pacti.C09.translate_error_kinds"]
+                "Pacti.C09.translate_error_kinds", "Pacti.C09.fromChars_sound", "Pacti.C09.fromChars_error_kinds", "Pacti.C09.fromChars_error_kinds_now"]
     quick_n = 1000
     thorough_n = 30000
     judge_sample = 10 ** 9  # the judge is exact and cheap here: every case is judged, in every tier
@@ -851,7 +854,7 @@ class C09(Check):
         "Lean 4.33 kernel; axioms ⊆ {propext, Classical.choice, Quot.sound}",
         "hand-written model Model/Syntax.lean (parse actions of grammar.py, data.py, serializer conversion) tied to the parser by this correspondence run",
         "Gen/Consts.lean (combineNoneNone, arithFold) regenerated from data.py / grammar.py by tools/py2lean.py",
-        "pyparsing's tokenisation and first-match alternation are not modelled: the model takes the tree, the harness renders it only in spellings from a whitelist established by probing (each exercised on every run)",
+        "pyparsing's tokenisation and first-match alternation are modelled by hand (Model/Parse.lean: token classes, ordered choice without re-entry, parse actions firing inside abandoned alternatives) and tied to pyparsing by this run only: every generated string (3 spellings per tree from a whitelist established by probing, plus the malformed stream) is read by both; no theorem says that the tree built is the reading a person expects",
         "the printed-term-list equality of same_term_list is modelled as equality of (constant, factors sorted by variable); the sign of a float zero has no counterpart (zero multipliers are kept out of absolute values by the generator)",
         "harness: renderer, generators, the liberal recogniser that certifies malformed strings, the judge's own piecewise-linear reading of a tree",
     ]
